@@ -53,6 +53,10 @@ func init() {
 			st := args[0].(structure)
 			return structure{st[0], st[1], (*value)(nil)}
 		}
+		p.hooks["(time.Time).Format"] = func(fr *frame, args []value) value {
+			fr.i.noteStub("time.Time.Format: fixed text (only used in file names and log text)")
+			return "20200102"
+		}
 		p.hooks["(time.Time).Location"] = func(fr *frame, args []value) value { return (*value)(nil) }
 	})
 }
